@@ -123,7 +123,7 @@ theorem next_after_peek (pk : Item) :
   obtain ⟨⟨w, hk⟩, h1, hpk⟩ := hs
   obtain ⟨k, hk1⟩ : ∃ k, s.peekCount = k + 1 := ⟨s.peekCount - 1, by omega⟩
   rw [next_pushed_eq s k hk1]
-  have hw : Wf inp { s with peekCount := k } := ⟨w.input, w.toks, w.t0, w.t1, w.t2, w.last0, w.last1⟩
+  have hw : Wf inp { s with peekCount := k } := ⟨w.input, w.toks, w.t0, w.t1, w.t2, w.last0, w.last1, w.eof⟩
   have hc : k = 0 ∨ k = 1 := by omega
   rcases hc with hc | hc
   · subst hc; simp [tokenAt]; exact ⟨⟨hw, by simp⟩, by simp [hpk, slotAt, hk1]⟩
@@ -512,8 +512,8 @@ theorem registerBlock_safe (k : Nat) (name : Bytes) (b : PStmt) :
   intro s hs
   obtain ⟨w, hk⟩ := hs
   split
-  · exact ⟨⟨w.input, w.toks, w.t0, w.t1, w.t2, w.last0, w.last1⟩, hk⟩
-  · exact ⟨⟨w.input, w.toks, w.t0, w.t1, w.t2, w.last0, w.last1⟩, hk⟩
+  · exact ⟨⟨w.input, w.toks, w.t0, w.t1, w.t2, w.last0, w.last1, w.eof⟩, hk⟩
+  · exact ⟨⟨w.input, w.toks, w.t0, w.t1, w.t2, w.last0, w.last1, w.eof⟩, hk⟩
 
 theorem assignLeftLoop_safe (fuel : Nat) (ctx : String) : ∀ k left op ret,
     Safe (I1 inp) (assignLeftLoop cfg fuel ctx k left op ret) (Q1 inp)
@@ -626,7 +626,7 @@ theorem blockParamsLoop_safe (fuel : Nat) (isDecl : Bool) (ctx : String) : ∀ k
     intro nx
     refine SafeL.assume (WfItem inp nx) (fun _ h => h.2) (fun wnx => ?_)
     refine SafeL.bind (Q := Q1 inp) ?_ ?_
-    · refine SafeL.ite (fun _ => ?_) (fun _ => ?_)
+    · refine SafeL.ite (fun hid => ?_) (fun _ => ?_)
       · refine SafeL.bind ((nns inp 1).pre (fun _ h => h.1)) ?_
         intro nx2
         refine SafeL.ite (fun _ => SafeL.pure _ (fun _ h => h)) (fun _ => ?_)
@@ -635,7 +635,7 @@ theorem blockParamsLoop_safe (fuel : Nat) (isDecl : Bool) (ctx : String) : ∀ k
           intro p
           sret
         · refine SafeL.ite (fun _ => ?_) (fun _ => ux inp 1 _ _ _ _)
-          sb (backup2_safe inp 1 nx wnx)
+          sb (backup2_safe inp 1 nx wnx (by rw [hid]; decide))
           refine SafeL.bind (E.pexpr ctx) ?_
           intro p
           sret
@@ -932,7 +932,7 @@ theorem prologueLoop_safe : ∀ k skipped, Safe (I2 inp) (prologueLoop cfg k ski
       refine SafeL.ite (fun _ => ?_) (fun _ => (prologueLoop_safe k _).pre (fun _ h => i12 h))
       sb (ln inp 1)
       exact (prologueLoop_safe k _).pre (fun _ h => i12 h)
-    refine SafeL.ite (fun _ => ?_) (fun _ => ?_)
+    refine SafeL.ite (fun hld => ?_) (fun _ => ?_)
     · refine SafeL.bind ((nns inp 1).pre (fun _ h => h.1)) ?_
       intro tk
       refine SafeL.ite (fun _ => ?_) (fun _ => ?_)
@@ -954,7 +954,8 @@ theorem prologueLoop_safe : ∀ k skipped, Safe (I2 inp) (prologueLoop cfg k ski
           intro s hs
           obtain ⟨h1, h2, h3, h4, h5, h6, h7⟩ := hf s
           exact ⟨⟨by rw [h1]; exact hs.1.input, by rw [h2]; exact hs.1.toks, by rw [h3]; exact hs.1.t0, by rw [h4]; exact hs.1.t1,
-            by rw [h5]; exact hs.1.t2, by rw [h7]; exact hs.1.last0, by rw [h7]; exact hs.1.last1⟩, by rw [h6]; exact hs.2⟩
+            by rw [h5]; exact hs.1.t2, by rw [h7]; exact hs.1.last0, by rw [h7]; exact hs.1.last1,
+            by rw [h2, h3, h4, h5]; exact hs.1.eof⟩, by rw [h6]; exact hs.2⟩
         dsimp only []
         refine SafeL.ite (fun _ => ?_) (fun _ => ?_)
         · refine SafeL.ite (fun _ => SafeL.bind (ef inp 1 _ (Q1 inp)) jp) (fun _ => ?_)
@@ -965,7 +966,7 @@ theorem prologueLoop_safe : ∀ k skipped, Safe (I2 inp) (prologueLoop cfg k ski
         · split
           · exact SafeL.bind (hmod _ (fun s => ⟨rfl, rfl, rfl, rfl, rfl, rfl, rfl⟩)) jp
           · exact SafeL.bind (ef inp 1 _ (Q1 inp)) jp
-      · sb (backup2_safe inp 1 delim wd)
+      · sb (backup2_safe inp 1 delim wd (by rw [hld]; decide))
         sret
     · sb ((bk inp).pre (fun _ h => h.1))
       sret
@@ -996,8 +997,9 @@ theorem parseTemplate_safe (fuel : Nat) : Safe (I2 inp) (parseTemplate cfg fuel)
   sret
 
 /-- the state `Set.parse` starts the parser in -/
-theorem initial_inv (input name : Bytes) (toks : List Item) (h : ∀ t ∈ toks, WfItem input t) :
+theorem initial_inv (input name : Bytes) (toks : List Item) (h : ∀ t ∈ toks, WfItem input t) (he : EofLast toks) :
     Inv input 2 { input := input, name := name, toks := toks } :=
-  ⟨⟨rfl, h, wfItem_zero input, wfItem_zero input, wfItem_zero input, Int.le_refl 0, by simp⟩, by simp⟩
+  ⟨⟨rfl, h, wfItem_zero input, wfItem_zero input, wfItem_zero input, Int.le_refl 0, by simp,
+    ⟨he, by simp [Item.zero], by simp [Item.zero], by simp [Item.zero]⟩⟩, by simp⟩
 
 end JetVerif.Parse
